@@ -336,9 +336,69 @@ class Gen:
         out.append(self.probe())
         return out
 
+    def ro_local_call(self, depth=1):
+        """a call whose body makes a local readonly (local -r | local + readonly | declare -r), then attacks it in the
+        same function, in a callee and through prefixed builtins; probes rb<k> / ra<k> / rc<k> bracket the attacks"""
+        r = self.rng
+        n = self.name()
+        val = ("s", n, r.choice(["locked", "7", "Ab"])) if r.random() < 0.75 else ("a", n, [(None, "p"), (None, "q")])
+        how = r.choice(["local-r", "local+readonly", "declare-r"])
+        if how == "local-r":
+            body = [D("l", [("-", "r")] + ([("-", "x")] if r.random() < 0.2 else []), val)]
+        elif how == "declare-r":
+            body = [D("d", [("-", "r")], val)]
+        else:
+            body = [D("l", [], val), D("r", [], ("n", n))]
+        self.tag += 1
+        k = self.tag
+        body.append(P("rb%d" % k))
+
+        def attack():
+            x = r.random()
+            if x < 0.35:
+                return ("C", self.temps() if r.random() < 0.3 else [], ("b", ("u", n)))
+            if x < 0.45:
+                return ("C", [], ("b", ("ue", n, r.choice(["0", "1"]))))
+            if x < 0.55:
+                return ("C", [], ("b", ("e", n, (("s", "exp"), r.random() < 0.3), False)))
+            if x < 0.65:
+                return ("C", [], ("b", ("s", r.choice(["read", "printf"]), n, ("s", "rd"))))
+            if x < 0.75:
+                return D(r.choice(["l", "d"]), r.choice([[], [("+", "r")], [("-", "i")]]), ("s", n, "re"))
+            if x < 0.9 and depth < 3:
+                inner = [("C", [], ("b", ("u", n)))]
+                if r.random() < 0.5:
+                    inner.append(("C", [], ("b", ("s", "printf", n, ("s", "cal")))))
+                inner.append(self.probe())
+                return ("C", [], ("f", inner))
+            return ("C", [(n, None, ("s", "tmp"), False)], ("b", (":",)))
+        for _ in range(r.randrange(1, 4)):
+            body.append(attack())
+        body.append(P("ra%d" % k))
+        y = r.random()
+        if y < 0.6:
+            body.append(("=", n, None, ("s", "changed"), r.random() < 0.2))
+        elif y < 0.75:
+            body.append(("=", n, "0", ("s", "changed"), False))
+        elif y < 0.85:
+            body.append(("S", "for", n, ("s", "changed")))
+        body.append(P("rc%d" % k))
+        steps = [("C", self.temps() if r.random() < 0.25 else [], ("f", body))]
+        # after the return the readonly local is gone: the name is an ordinary (global) name again
+        z = r.random()
+        if z < 0.4:
+            steps.append(("=", n, None, ("s", "after"), False))
+        elif z < 0.6:
+            steps.append(("C", [], ("b", ("u", n))))
+        return steps
+
     def program(self):
         r = self.rng
         steps = []
+        if r.random() < 0.25:
+            if r.random() < 0.5:
+                steps.append(("=", self.name(), None, self.scal(), False))
+            steps += self.ro_local_call()
         for _ in range(r.randrange(4, 12)):
             a = self.action(0, False)
             if a[0] == "C" and a[2][0] == "x":
@@ -367,6 +427,99 @@ def api_alphabet():
     return ops
 
 
+def api_ro_local(rng):
+    """readonly variable in a Local scope, then every writer aimed at it: same frame, deeper frames, after the pop"""
+    n = rng.choice(NAMES)
+    c = []
+    if rng.random() < 0.5:
+        c += ["uoa", n, "s", "g", rng.choice(["n", "x"]), "a", "G"]
+    c += ["push", "L"]
+    if rng.random() < 0.3:
+        c += ["push", "C"]
+    x = rng.random()
+    if x < 0.5:
+        c += ["uoa", n, "s", "3", "n", "c", "L"]
+    elif x < 0.75:
+        c += ["uoa", n, "a", "2", "n", "p", "n", "q", "n", "c", "L"]
+    else:
+        c += ["add", n, "L", "asg", n, "s", "7", "0"]
+    c += ["ro", n]
+    attacks = [["unset", n], ["unset", n], ["asg", n, "s", "ch", "0"], ["asg", n, "s", "ch", "1"], ["asgix", n, "0", "e", "0"],
+               ["unsetix", n, "0"], ["uoa", n, "s", "u", "n", "a", "G"], ["uoa", n, "s", "u", "x", "c", "L"],
+               ["uoae", n, "1", "e", "a", "G"], ["push", "L"], ["push", "C"], ["exp", n, "1"], ["int", n, "1"],
+               ["get", n, "a"], ["get", n, "c"], ["child"]]
+    for _ in range(rng.randrange(1, 6)):
+        c += rng.choice(attacks)
+    c += ["get", n, "a"]
+    if rng.random() < 0.5:
+        c += ["pop", rng.choice(["L", "L", "C"]), "unset", n, "uoa", n, "s", "after", "n", "a", "G"]
+    return c
+
+
+API_ARITY = {"push": 1, "pop": 1, "uoae": 5, "add": 2, "unset": 1, "unsetix": 2, "get": 2, "child": 0, "asgix": 4, "ro": 1,
+             "exp": 2, "int": 2, "xf": 2, "toidx": 1, "toassoc": 1}
+
+
+def api_ops(toks):
+    """split a token list into ops"""
+    def lit_len(i):
+        if toks[i] == "s":
+            return 2
+        k, j = int(toks[i + 1]), i + 2
+        for _ in range(k):
+            j += 3 if toks[j] == "k" else 2
+        return j - i
+    ops, i = [], 0
+    while i < len(toks):
+        op = toks[i]
+        if op == "uoa":
+            n = 2 + lit_len(i + 2) + 3
+        elif op == "asg":
+            n = 2 + lit_len(i + 2) + 1
+        else:
+            n = 1 + API_ARITY[op]
+        ops.append(toks[i:i + n])
+        i += n
+    return ops
+
+
+def api_states(toks, fields):
+    """-> list of (op, result fields, scopes after)"""
+    out, i = [], 0
+    for op in api_ops(toks):
+        if op[0] == "get":
+            n = 1 if fields[i] == "none" else 4 + 2 * int(fields[i + 3])
+        elif op[0] == "child":
+            n = 2 + 2 * int(fields[i + 1])
+        else:
+            n = 1
+        res = fields[i:i + n]
+        i += n
+        if fields[i] != "T":
+            raise ValueError("no state after %r" % (op,))
+        sc, i = parse_env(fields, i + 1)
+        out.append((op, res, sc))
+    return out
+
+
+def check_api(toks, fields):
+    """the readonly invariant on the code's own states: no writer of ShellEnvironment/ShellVariable (other than `add`,
+    which replaces by contract, and pop) changes, un-marks or removes a readonly variable in any scope"""
+    out = []
+    try:
+        sts = api_states(toks, fields)
+    except (ValueError, IndexError, KeyError):
+        return [("the code's API dump is malformed", None)]
+    prev = [("G", {})]
+    for op, res, sc in sts:
+        if op[0] not in ("pop", "add"):
+            for pos, kb, n, b, a in ro_lost(prev, sc):
+                out.append(("API: %s on a readonly %s in the %s scope at depth %d: %r -> %r (result %r)"
+                            % (" ".join(op), n, kb, pos, b, a, res), None))
+        prev = sc
+    return out
+
+
 def gen_api(ctx):
     ops = api_alphabet()
     cases = []
@@ -388,6 +541,8 @@ def gen_api(ctx):
             o = [rng.choice(NAMES) if x in ("va", "vb") else x for x in o]
             c += o
         cases.append(c)
+    for _ in range(1500 if ctx.quick else 15000):
+        cases.append(api_ro_local(rng))
     return cases, nex
 
 
@@ -541,6 +696,20 @@ def probe_temps(steps, acc=None):
     return acc
 
 
+def ro_lost(before, after):
+    """readonly bindings of `before` (scope by scope, from the bottom) that are missing / not readonly / changed in `after`"""
+    bad = []
+    for pos, ((kb, mb), (ka, ma)) in enumerate(zip(before, after)):
+        for n, b in mb.items():
+            if "r" in b[0]:
+                a = ma.get(n) if ka == kb else None
+                if a is None or "r" not in a[0] or content(a) != content(b):
+                    if b[1].startswith("U") and a is not None and "r" in a[0] and content(a) in ([], [("0", "")]):
+                        continue
+                    bad.append((pos, kb, n, b, a))
+    return bad
+
+
 def check_program(steps, recs):
     """returns list of (why, known-id or None)"""
     out = []
@@ -562,6 +731,13 @@ def check_program(steps, recs):
                 if o[1].startswith("e"):
                     last_e_probe = o[2]
                     last_e_tag = o[1]
+                if o[1].startswith("rb"):
+                    sand["ro" + o[1][2:]] = o[2]
+                if o[1][:2] in ("ra", "rc") and "ro" + o[1][2:] in sand:
+                    # O2c: same function invocation: every scope below the probe's own Command scope is the same frame
+                    for pos, kb, n, b, a2 in ro_lost(sand["ro" + o[1][2:]][:-1], o[2][:-1]):
+                        out.append(("readonly %s in the %s scope at depth %d changed inside the function that owns it "
+                                    "(between probes rb/%s): %r -> %r" % (n, kb, pos, o[1], b, a2), None))
                 if o[1].startswith("sb"):
                     sand[o[1][2:]] = o[2]
                 if o[1].startswith("sa") and o[1][2:] in sand:
@@ -657,7 +833,7 @@ def run_sh(ctx, progs):
 
 
 def run(ctx):
-    mism, specv = [], []
+    mism, specv, apiv = [], [], []
     # API level
     api_cases, nex = gen_api(ctx)
     a_impl = ctx.impl("envapi", api_cases)
@@ -666,6 +842,11 @@ def run(ctx):
         if il != ml:
             mism.append({"level": "api", "ops": c, "code": core.dec_line(il)[-60:] if not il.startswith("PANIC") else il,
                          "model": core.dec_line(ml)[-60:]})
+        if il.startswith(("PANIC", "DIED", "TIMEOUT")):
+            apiv.append({"input": {"api_ops": c}, "why": "the API sequence did not complete: %s" % il[:200]})
+            continue
+        for why, kn in check_api(c, core.dec_line(il)):
+            apiv.append({"input": {"api_ops": c}, "why": why})
     # shell level
     g = Gen(ctx.rng)
     progs = [g.program() for _ in range(1500 if ctx.quick else 20000)]
@@ -689,7 +870,10 @@ def run(ctx):
         count_kinds(p, kinds, dist)
         if {"f", "temp"} & kinds and len(kinds) >= 3:
             nontriv.add(repr(p))
-    specv = dedup(specv)
+    specv, apiv = dedup(specv), dedup(apiv)
+    # shell programs first (they read as programs), API sequences interleaved so that both levels are reported
+    unknown = [v for v in specv if not v.get("known")]
+    specv = unknown[:3] + apiv[:2] + unknown[3:] + [v for v in specv if v.get("known")] + apiv[2:]
     svb = bash_second_opinion(ctx, progs, rendered, impl, 150 if ctx.quick else 4000)
     # extraction cross-check
     idx = ctx.rng.sample(range(len(progs)), 24)
@@ -829,12 +1013,9 @@ def bash_second_opinion(ctx, progs, rendered, impl, limit):
     idx = list(range(len(progs)))[:limit]
 
     def run(i):
-        try:
-            p = subprocess.run(["/usr/bin/bash", "--norc", "--noprofile", "-c", bash_script(rendered[i][0])], stdin=subprocess.DEVNULL,
-                               stdout=subprocess.PIPE, stderr=subprocess.DEVNULL, timeout=30, env={"PATH": "/usr/bin:/bin"})
-            return p.stdout.decode("utf-8", "replace")
-        except subprocess.TimeoutExpired:
-            return ""
+        rc, o, _ = core.run_in_group(["/usr/bin/bash", "--norc", "--noprofile", "-c", bash_script(rendered[i][0])], 30,
+                                     stderr=subprocess.DEVNULL, env={"PATH": "/usr/bin:/bin"})
+        return o.decode("utf-8", "replace") if rc is not None else ""
     with concurrent.futures.ThreadPoolExecutor(max_workers=8) as ex:
         outs = list(ex.map(run, idx))
     stat = {"programs": 0, "steps_compared": 0, "steps_agree": 0, "programs_agree_everywhere": 0, "child_envs_compared": 0,
